@@ -393,6 +393,11 @@ func GenInput(r *rng.R, hostile bool) Input {
 	for i := range pkgs {
 		pkgs[i].Want = want[i]
 	}
+	// round 5: src= lines whose source is a multiply linked inode (r5_src.go)
+	var plan srcPlan
+	if r.Chance(1, 5) {
+		plan = genSrcClass(r, t, npk, want, record)
+	}
 	for i, p := range pkgs {
 		d := p.Dir()
 		blob := strings.Join(lines[i], "\n")
@@ -439,6 +444,14 @@ func GenInput(r *rng.R, hostile bool) Input {
 			}
 		}
 		in.Script = common.Bs(genScript(r, t, extras, likely, pkgs, in))
+	}
+	if len(plan.lines) > 0 {
+		in.UseFile = true
+		if r.Bool() {
+			in.Script = nil // only the src= lines
+		}
+		in.Script = mergeSrcLines(r, in.Script, plan.lines)
+		in.Ext = plan.ext
 	}
 	in.Tree = t.list()
 	return in
